@@ -71,10 +71,15 @@ class StaticCondensation(Module):
         return A[self.m, ...][..., self.m] - A[self.m, ...][..., self.f] @ self.X
 
     def _sensitivity(self, dfdB):
-        C = np.zeros((self.n, len(self.m)), dtype=float)
+        A = self.sig_in[0].state
+        # The reduced matrix is [I, -Y] A [I; -X] with X = Aff^-1 Afm and Y = Amf Aff^-1 (Y^T = X only if A = A^T)
+        Yt = self.module_LinSolve.solver.solve(A[self.m, ...][..., self.f].T.toarray(), trans='T')
+        C = np.zeros((self.n, len(self.m)), dtype=np.result_type(float, self.X.dtype))
         C[self.m, ...] = np.eye(len(self.m))
+        Cl = C.copy()
         C[self.f, ...] = -self.X
-        return C @ dfdB @ C.T if isinstance(dfdB, DyadCarrier) else DyadCarrier(list(C.T), list(np.asarray(dfdB @ C.T)))
+        Cl[self.f, ...] = -Yt
+        return Cl @ dfdB @ C.T if isinstance(dfdB, DyadCarrier) else DyadCarrier(list(Cl.T), list(np.asarray(dfdB @ C.T)))
 
 
 class SystemOfEquations(Module):
